@@ -323,6 +323,15 @@ def run(ctx):
         [E("r1", True), E("r2", True), E("r3"), S("r3"), S("r2"), S("r1"), R("r3"), R("r1"), S("r2"), R("r2"), dict(op="close")],
         [E("r1"), S("r1"), S("r1"), R("r1"), S("r1"), E("r2", True), S("r2"), R("r2"), dict(op="close")],
     ]
+    # non-fatal error messages (what a failed signal handler produces) about a run that has been collected, a run
+    # that is pending, a run that never existed and no run at all - each while another call is pending: they are
+    # notes, every call still gets its result and Close returns
+    N = lambda r: dict(op="unsol", kind="err_none", run=r)
+    emit_ops += [
+        [E("r1"), R("r1"), E("r2"), N("r1"), R("r2"), E("r3"), R("r3"), dict(op="close")],
+        [E("r1"), E("r2"), N("r3"), N("r2"), R("r1"), N("r1"), N(""), R("r2"), dict(op="close")],
+        [E("r1", True), N("r1"), S("r1"), R("r1"), N("r1"), E("r2"), N("zz"), R("r2", "err"), E("r3"), N("r2"), R("r3"), dict(op="close")],
+    ]
     esc = [dict(id="emit/%d" % i, mode="client", ops=o) for i, o in enumerate(emit_ops)]
     esess = []
     for sc, rr in zip(esc, A.run_driver(ctx, esc, label="c06emit")):
